@@ -47,27 +47,44 @@ def call_key(c):
     return "%s:%s:%s" % (c["op"], c["tok"], json.dumps(c["m"], sort_keys=True))
 
 
-def tlc_export(ctx, cfg, name, env=None, workers=4, timeout=1500, extra=None):
+def tlc_export(ctx, cfg, name, env=None, workers=4, timeout=1500, extra=None, allow_violation=False):
     """run InstanceMC with cfg; returns (TLCResult, exported records)"""
     out = os.path.join(ctx.tmp, "inst-%s.ndjson" % name)
     e = {"VERIF_OUT": out}
     e.update(env or {})
-    r = ctx.tlc("InstanceMC", cfg, workers=workers, env=e, timeout=timeout, extra=extra, allow_violation=False)
+    r = ctx.tlc("InstanceMC", cfg, workers=workers, env=e, timeout=timeout, extra=extra, allow_violation=allow_violation)
     recs = common.read_ndjson(out) if os.path.exists(out) else []
     return r, recs
 
 
 def deviations(ctx, cfg, expected):
-    """For every named deviation in `expected` (name -> set of witness classes that must appear) run the model
-    with that deviation alone switched on; the Witness* invariants write every reachable state in which a
-    property of the statement fails.  Returns {name: [witness records]}.  A deviation the model can no longer
-    exhibit means the specification has lost the ability to express the defect: Infra."""
-    def one(dev):
+    """For every named deviation in `expected` (name -> set of witness classes that must appear) check the model
+    with that deviation alone switched on, twice: (a) cfg 'devv': the properties themselves as invariants - TLC
+    must report one of them violated (its shortest counterexample ends the run); (b) cfg 'dev': the whole state
+    space with the Witness* invariants, which write every reachable state in which a property of the statement
+    fails.  Returns {name: [witness records]}.  A deviation the model can no longer exhibit means the
+    specification has lost the ability to express the defect: Infra."""
+    verdict_cfg = cfg.replace("instance_dev_", "instance_devv_")
+
+    def one(job):
+        dev, verdict = job
+        if verdict:
+            r, _ = tlc_export(ctx, verdict_cfg, "devv-%s-%s" % (cfg.split(".")[0], dev), env={"VERIF_DEV": dev},
+                              workers=2, allow_violation=True)
+            return dev, verdict, r, None
         r, recs = tlc_export(ctx, cfg, "dev-%s-%s" % (cfg.split(".")[0], dev), env={"VERIF_DEV": dev}, workers=3)
-        return dev, r, recs
+        return dev, verdict, r, recs
     res = {}
-    with ThreadPoolExecutor(max_workers=4) as ex:
-        for dev, r, recs in ex.map(one, sorted(expected)):
+    jobs = [(d, v) for d in sorted(expected) for v in (True, False)]
+    with ThreadPoolExecutor(max_workers=8) as ex:
+        for dev, verdict, r, recs in ex.map(one, jobs):
+            if verdict:
+                if not r.violated:
+                    raise common.Infra("Instance.tla with deviation %s (%s): TLC reports no violated property: the "
+                                       "specification can no longer express the defect" % (dev, verdict_cfg))
+                ctx.log("deviation %s on the model: TLC reports %s violated (counterexample of %d states)" % (
+                    dev, r.violated, len(r.trace)))
+                continue
             classes = {w["what"] for w in recs}
             missing = set(expected[dev]) - classes
             if missing:
@@ -159,23 +176,38 @@ def validate_trace(ctx, trace, tag, concurrent=False):
         if not consumed or consumed[-1]["line"] != len(lines):
             raise common.Infra("InstanceTrace did not consume the %d recorded lines (%s)" % (len(lines), tr))
         rejected = [j for j in judged if j["what"] == "rejected"]
+        # a change of the schema's state is attributed to the call after which it is first seen
+        state_ok = {}
+        ok = True
+        for i, l in enumerate(lines):
+            if l["ev"] == "reset":
+                ok = True
+                continue
+            now = l["defsame"] and l["descsame"]
+            state_ok[i + 1] = ok          # state before this line
+            ok = now
         for j in rejected:
             line = lines[j["line"] - 1]
             why = sorted(j["why"])
             if "model" in why:
                 raise common.Infra("InstanceTrace: the repaired design itself returns a result outside Pure on %s" % json.dumps(line))
+            divs = set()
             for w in why:
+                if w in ("defaults", "cache", "describe") and not state_ok.get(j["line"], True):
+                    continue     # caused by an earlier (rejected) call of this history
+                divs.add(TRACE_WHY.get(w, w))
+            for div in sorted(divs):
                 cls = line["tok"]
-                if w in ("defaults", "cache") and line["kind"] in ("objmap", "objstruct") and line["op"] == "unser":
+                if line["kind"] in ("objmap", "objstruct") and line["op"] == "unser" and line["tok"] != "bad":
                     m = line["m"]
                     cls = "default_filling" if (m["n"] < 0 or (line["kind"] == "objstruct" and m["sa"] < 0 and m["sb"] < 0)) else "complete"
-                if w in ("defaults", "cache") and cls == "complete":
-                    continue     # the change was caused by an earlier (rejected) line of this history
-                sig = dict(kind=line["kind"], op=line["op"], arg_class=cls, divergence=TRACE_WHY.get(w, w))
+                    if div not in ("defaults_changed", "describe_changed"):
+                        cls = line["tok"]
+                sig = dict(kind=line["kind"], op=line["op"], arg_class=cls, divergence=div)
                 if concurrent:
                     sig = dict(kind=line["kind"], op=line["op"], divergence="result_differs_from_isolated")
                 ctx.violation(sig, dict(trace_line=line, why=why,
                                         note="InstanceTrace.tla rejects this recorded call (history up to it in the replay file)",
-                                        history=[l for l in lines[:j["line"]]][-12:]))
+                                        history=[l for l in lines[:j["line"]]][-20:]))
         accepted += sum(1 for l in lines if l["ev"] == "call") - len(rejected)
     return accepted
